@@ -89,8 +89,15 @@ class BaseElementLocator
 
     void resize(std::size_t new_size, std::byte* memory_begin) noexcept
     {
-        // the first element always starts at the beginning of the block; its slot may never have been written
-        last_element_ = new_size == 0 ? memory_begin : element_address(new_size, memory_begin);
+        if (new_size == 0)
+        {
+            // the first element always starts at the beginning of the block; its slot may never have been written
+            last_element_ = memory_begin;
+        }
+        else if (new_size < element_addresses_.size())
+        {
+            last_element_ = element_address(new_size, memory_begin);
+        }
         element_addresses_.resize_from_capacity(new_size);
     }
 
